@@ -23,8 +23,115 @@ struct Poll {
     cv: Condvar,
 }
 
+/// Re-wake scenarios (6..): one waker per worker, woken several times; the payload is a Relaxed
+/// atomic (so the program itself has no data race whatever the waker does) written before each
+/// wake().  The last ordinary (deleted=false) handler run must have seen the last value written:
+/// either the final wake() found the bit already collected and schedules a fresh run that
+/// happens-after the write, or its read-modify-write on the still-set bit is what the collecting
+/// swap reads from.  A wake() that publishes nothing (e.g. only loads the word when the bit is
+/// set) shows up as a stale last read under Miri's weak-memory emulation.
+fn rewake(scenario: usize) {
+    use std::sync::atomic::{AtomicU64, Ordering};
+    let nworkers = 1 + scenario % 2;
+    let nwakes = 2 + (scenario / 2) % 3;
+    let now = Instant::now();
+    let mut stakker = Stakker::new(now);
+    let s = &mut stakker;
+    let poll = Arc::new(Poll { m: Mutex::new((0, 0)), cv: Condvar::new() });
+    let p2 = poll.clone();
+    s.set_poll_waker(move || {
+        let mut g = p2.m.lock().unwrap();
+        g.0 += 1;
+        drop(g);
+        p2.cv.notify_all();
+    });
+    let payload: Arc<Vec<AtomicU64>> = Arc::new((0..nworkers).map(|_| AtomicU64::new(0)).collect());
+    let seen: std::rc::Rc<std::cell::RefCell<Vec<(usize, u64, bool)>>> = Default::default();
+    let mut handles = Vec::new();
+    for t in 0..nworkers {
+        let pl = payload.clone();
+        let seen2 = seen.clone();
+        let w = s.waker(move |_s, deleted| {
+            let v = pl[t].load(Ordering::Relaxed);
+            seen2.borrow_mut().push((t, v, deleted));
+        });
+        let pl = payload.clone();
+        let poll = poll.clone();
+        handles.push(std::thread::spawn(move || {
+            for k in 1..=nwakes {
+                pl[t].store(k as u64, Ordering::Relaxed);
+                w.wake();
+                if k % 2 == 1 {
+                    std::thread::yield_now();
+                }
+            }
+            let mut g = poll.m.lock().unwrap();
+            g.1 += 1;
+            drop(g);
+            poll.cv.notify_all();
+            // the Waker goes back to the main thread alive: its deleted=true call (which is ordered
+            // by the drop-list mutex) must not be what delivers the last value
+            w
+        }));
+    }
+    loop {
+        let mut g = poll.m.lock().unwrap();
+        while g.0 == 0 && g.1 < nworkers {
+            g = poll.cv.wait(g).unwrap();
+        }
+        if g.0 > 0 {
+            g.0 -= 1;
+            drop(g);
+            s.poll_wake();
+            s.run(now, false);
+        } else {
+            break;
+        }
+    }
+    let wakers: Vec<Waker> = handles.into_iter().map(|h| h.join().unwrap()).collect();
+    loop {
+        let mut g = poll.m.lock().unwrap();
+        if g.0 == 0 {
+            break;
+        }
+        g.0 -= 1;
+        drop(g);
+        s.poll_wake();
+        s.run(now, false);
+    }
+    {
+        let seen = seen.borrow();
+        for t in 0..nworkers {
+            let last = seen.iter().filter(|e| e.0 == t && !e.2).last();
+            match last {
+                Some(e) if e.1 == nwakes as u64 => {}
+                other => {
+                    println!("STALE worker {} wrote {} before its last wake() but the last handler run saw {:?}", t, nwakes, other);
+                    std::process::exit(3);
+                }
+            }
+        }
+        println!("ok scenario {} rewake workers {} wakes {} handler-runs {}", scenario, nworkers, nwakes, seen.len());
+    }
+    drop(wakers);
+    loop {
+        let mut g = poll.m.lock().unwrap();
+        if g.0 == 0 {
+            break;
+        }
+        g.0 -= 1;
+        drop(g);
+        s.poll_wake();
+        s.run(now, false);
+    }
+}
+
 fn main() {
     let scenario: usize = std::env::args().nth(1).and_then(|s| s.parse().ok()).unwrap_or(0);
+    if scenario >= 6 {
+        rewake(scenario - 6);
+        return;
+    }
     let nworkers = 2 + scenario % 2;
     let nwakes = 1 + (scenario / 2) % 3;
     let share_one_waker = (scenario / 6) % 2 == 1;
